@@ -280,11 +280,14 @@ class Workspace:
                 path.unlink()
             self.cf[f].to_file(path)
             new = self.yaw.CorrFunc.from_file(path)
-            self.cf[f] = new
-            for mm in MEMBER_ORDER:
-                if (f, mm) in self.nc:
-                    self.nc[(f, mm)] = getattr(new, mm)
-            return None
+            old = self.cf[f]
+            same = tuple(old.to_dict()) == tuple(new.to_dict()) and old == new
+            if same:
+                self.cf[f] = new
+                for mm in MEMBER_ORDER:
+                    if (f, mm) in self.nc:
+                        self.nc[(f, mm)] = getattr(new, mm)
+            return dict(round_trip_equal=same, written="|".join(old.to_dict()), read_back="|".join(new.to_dict()))
         raise ValueError(op)
 
     def stored_state(self) -> dict:
@@ -510,6 +513,13 @@ class ContainerReplayer:
                         kind == "sumw" and any(x != 0 for arr in wt.values() for row in arr for x in row))
                     self.ctx.evaluated(1, (cfg.label, _freeze(cnt), _freeze(wt), tuple(hist[: n + 1])) if nontrivial else None)
                 if kind == "io":
+                    if not res["round_trip_equal"]:
+                        # Read(Write(x)) # x is a defect of the persistence (property C11), not of the
+                        # resampling: the object read back is a different data set, the model's
+                        # expectations do not apply to it -> recorded as drift, history abandoned
+                        if report:
+                            self.ctx.drift(f"C03|{ENTRY[kind]}|{cls}|round_trip_differs(C11)|{res['written']}->{res['read_back']}", dict(detail, **res))
+                        break
                     continue
                 findings, drifts = check_result(kind, res, exp, cls=cls, hcls=hcls, NP=cfg.NP, NB=cfg.NB,
                                                 recompute=recompute_for(op), detail=detail)
